@@ -82,7 +82,8 @@ def base_strings(r: random.Random, n: int) -> list[str]:
     return out
 
 
-SEM_IDS = ["rc", "rc1", "rc.1", "RC1", "alpha", "alpha.1", "beta.2", "1", "0", "10", "2", "x-y", "a.b.c", "pre.10", "pre.9", "Alpha1", "rc-1", "-1", "0a", "dev"]
+SEM_IDS = ["rc", "rc1", "rc.1", "RC1", "alpha", "alpha.1", "beta.2", "1", "0", "10", "2", "x-y", "a.b.c", "pre.10", "pre.9", "Alpha1", "rc-1", "-1", "0a", "dev",
+           "9", "99", "10.1", "2.0", "rc9", "rc.9", "rc99", "a9b", "rc.1.9", "x-9-y", "1a", "pre", "c.2", "preview-2", "20", "1.9"]
 SEM_BUILDS = [None, "build.1", "001", "a-b.c", "99"]
 
 
@@ -182,3 +183,91 @@ def parse_ok(cls, s, **kw):
         return cls.parse(s, **kw)
     except Exception:
         return None
+
+
+def sem_same_release(rels=("1.0.0", "1.2.3", "0.0.9")) -> dict[str, list[str]]:
+    """for a few releases, every tag of the grammar (all pairs/triples inside one release are the
+    interesting ones: the release numbers tie, the tags decide)"""
+    return {rel: [rel] + [f"{rel}-{t}" for t in SEM_IDS] + [f"{rel}-{t}+b.{i}" for i, t in enumerate(SEM_IDS[:6])] + [rel + "+build.1"] for rel in rels}
+
+
+PRE_SYN = [["a", "alpha"], ["b", "beta"], ["c", "rc", "pre", "preview"]]
+POST_SYN = ["post", "rev", "r"]
+
+
+def pkg_variant_group(r: random.Random) -> list[str]:
+    """several spellings of ONE PEP 440 version (they must all compare equal and hash equal)"""
+    epoch = r.choice([None, 0, 1])
+    rel = [r.choice([0, 1, 2, 10]) for _ in range(r.choice([1, 2, 3]))]
+    pre = r.choice([None, None] + PRE_SYN)
+    pre_n = r.choice([None, 0, 1, 2, 10])
+    post_n = r.choice([None, None, 0, 1, 10])
+    dev_n = r.choice([None, None, 0, 3])
+    loc = r.choice([None, None, ["abc", 1], [1], ["a", "b", "c"], [10, "x"], ["ubuntu", 1, 2]])
+    out = []
+    for _ in range(r.randint(3, 6)):
+        rr = list(rel)
+        while len(rr) > 1 and rr[-1] == 0 and r.random() < 0.5:
+            rr.pop()
+        while len(rr) < 3 and r.random() < 0.4:
+            rr.append(0)
+        ep = epoch
+        if epoch == 0 and r.random() < 0.5:
+            ep = None
+        if epoch is None and r.random() < 0.3:
+            ep = 0
+        s = (r.choice(["", "", "v"])) + (f"{ep}!" if ep is not None else "") + ".".join(map(str, rr))
+        if pre is not None:
+            n = pre_n
+            if n == 0 and r.random() < 0.5:
+                n = None
+            if pre_n is None and r.random() < 0.3:
+                n = 0
+            s += r.choice(SEPS) + r.choice(pre) + (r.choice(SEPS) + str(n) if n is not None else "")
+        if post_n is not None:
+            if r.random() < 0.3:
+                s += "-" + str(post_n)
+            else:
+                n = post_n
+                if n == 0 and r.random() < 0.5:
+                    n = None
+                s += r.choice(SEPS) + r.choice(POST_SYN) + (r.choice(SEPS) + str(n) if n is not None else "")
+        if dev_n is not None:
+            n = dev_n
+            if n == 0 and r.random() < 0.5:
+                n = None
+            s += r.choice(SEPS) + "dev" + (r.choice(SEPS) + str(n) if n is not None else "")
+        if loc is not None:
+            parts = [(("0" * r.choice([0, 0, 1]) + str(x)) if isinstance(x, int) else x) for x in loc]
+            s += "+" + parts[0] + "".join(r.choice([".", "-", "_"]) + q for q in parts[1:])
+        out.append(s)
+    # the grammar is ambiguous in places (`a-1` is pre a1, not pre a + implicit post 1): keep only the
+    # spellings the PEP 440 reference reads as the same version as the first one
+    ref = _ref()
+    keep = []
+    first = None
+    for s in dict.fromkeys(out):
+        try:
+            v = ref(s)
+        except Exception:  # noqa: BLE001
+            continue
+        if first is None:
+            first = v
+        if v == first and str(v.local) == str(first.local):
+            keep.append(s)
+    return keep
+
+
+_REF = None
+
+
+def _ref():
+    global _REF
+    if _REF is None:
+        import os
+        import sys
+        from common import VERIF
+        sys.path.insert(0, os.path.join(VERIF, "vendor"))
+        from packaging_version.version import Version
+        _REF = Version
+    return _REF
